@@ -5,6 +5,8 @@ The oracle is written from doc/derive_ex.md (DESIGN.md Appendix A), never from t
 import itertools
 import random
 
+from . import common as _common
+
 CMP_ATTRS = ["ord", "partial_ord", "eq", "partial_eq", "hash"]
 KEY_N = {"ord": 1, "partial_ord": 2, "eq": 3, "partial_eq": 4, "hash": 5}
 TRAITS = ["Ord", "PartialOrd", "Eq", "PartialEq", "Hash"]
@@ -88,6 +90,7 @@ class TypeSpec:
     # ---- rendering -------------------------------------------------------------------------
     def conc(self, ty):
         for g, c in self.generics:
+            g = g.split(":")[0].strip()
             ty = ty.replace("<%s>" % g, "<%s>" % c) if ty != g else c
         return ty
 
@@ -348,7 +351,7 @@ def shapes():
         "s_named4": lambda: S("named", [F("a", "bool"), F("b", "u8"), F("c", "i8"), F("d", "u8")], "s_named4"),
         "s_tuple2": lambda: S("tuple", [F(None, "u8"), F(None, "u16")], "s_tuple2"),
         "s_unit": lambda: S("unit", [], "s_unit"),
-        "s_gen": lambda: S("named", [F("a", "A"), F("b", "u8"), F("p", "core::marker::PhantomData<A>")], "s_gen", [("A", "u8")]),
+        "s_gen": lambda: S("named", [F("a", "A"), F("b", "u8"), F("p", "core::marker::PhantomData<A>")], "s_gen", [("A: P", "u8")]),
         "e_mixed": lambda: TypeSpec("enum", [Variant("A", "unit", []), Variant("B", "tuple", [F(None, "u8"), F(None, "i8")]),
                                              Variant("C", "named", [F("a", "u8"), F("b", "u8")])], shape="e_mixed"),
         "e_units3": lambda: TypeSpec("enum", [Variant("A", "unit", []), Variant("B", "unit", []), Variant("C", "unit", [])], shape="e_units3"),
@@ -356,7 +359,7 @@ def shapes():
                                            Variant("B", "tuple", [F(None, "u8"), F(None, "u8")])], shape="e_two"),
         "e_single": lambda: TypeSpec("enum", [Variant("Only", "named", [F("a", "u8"), F("b", "i8")])], shape="e_single"),
         "e_gen": lambda: TypeSpec("enum", [Variant("A", "tuple", [F(None, "A")]), Variant("B", "named", [F("a", "A"), F("b", "u8")])],
-                                  [("A", "u8")], shape="e_gen"),
+                                  [("A: P", "u8")], shape="e_gen"),
         "s_po": lambda: S("named", [F("a", "Po"), F("b", "u8")], "s_po"),
     }
     return d
@@ -397,3 +400,80 @@ def manual_impls(t, derived):
     if "PartialOrd" in need:
         out.append("impl PartialOrd for %s { fn partial_cmp(&self, o: &Self) -> Option<Ordering> { ref_pcmp(self, o) } }" % tu)
     return "\n".join(out)
+
+
+# ---------------------------------------------------------------------------------------------
+# candidate handling shared by the comparison-family checks
+# ---------------------------------------------------------------------------------------------
+def entry_attrs(entry, traits):
+    lst = ", ".join(traits)
+    if entry == "attr":
+        return ["#[derive_ex(%s)]" % lst]
+    return ["#[derive(Ex)]", "#[derive_ex(%s)]" % lst]
+
+
+def place(shape_name, placements, traits=None):
+    """placements: list of (field index over all fields, attr, args tuple). Returns TypeSpec or None"""
+    t = shapes()[shape_name]()
+    fields = [f for _, f in t.all_fields()]
+    if t.generics and traits is not None and not supertrait_closed(traits):
+        return None  # hand-written supertrait impls are only written for concrete types
+    for idx, attr, args in placements:
+        if idx >= len(fields):
+            return None
+        f = fields[idx]
+        if "PhantomData" in f.ty:
+            return None
+        if "by" in args and any(g.split(":")[0].strip() == f.ty for g, _ in t.generics):
+            return None  # `by` on a field of generic type: rustc rejects the nested fn (property C20, not claimed)
+        f.attrs.setdefault(attr, set()).update(args)
+    return t
+
+
+def candidate_desc(shape, placements, traits, entry):
+    pl = ";".join("%s(%s)@%d" % (a, "+".join(args), i) for i, a, args in placements) or "-"
+    return "shape=%s attrs=%s traits=%s entry=%s" % (shape, pl, "+".join(traits), entry)
+
+
+def pos_class(shape, idx):
+    t = shapes()[shape]()
+    n = len(list(t.all_fields()))
+    return "first" if idx == 0 else ("last" if idx == n - 1 else "middle")
+
+
+def accepted(cands):
+    """ask the real macro (R) which candidates it accepts; -> list of (cand, TypeSpec)"""
+    reqs, specs = [], []
+    for (sh, pl, ts, en) in cands:
+        t = place(sh, pl, ts)
+        if t is None:
+            continue
+        if en == "attr":
+            reqs.append(("attr", ", ".join(ts), t.item_text()))
+        else:
+            reqs.append(("derive", "", t.item_text(["#[derive_ex(%s)]" % ", ".join(ts)])))
+        specs.append(((sh, pl, ts, en), t))
+    res = _common.expand_many(reqs)
+    out, rejected, leftover = [], 0, 0
+    for (cand, t), r in zip(specs, res):
+        if "panic" in r or not r.get("parse_ok"):
+            rejected += 1
+            continue
+        if _common.compile_errors(r):
+            rejected += 1
+            continue
+        if cand[3] == "attr":
+            item0 = r["items"][0]["text"] if r["items"] else ""
+            if any(("# [%s" % a) in item0 or ("#[%s" % a) in item0 for a in CMP_ATTRS):
+                leftover += 1  # helper attribute not consumed: rustc would reject the program ("cannot find attribute")
+                continue
+        out.append((cand, t))
+    return out, rejected, leftover
+
+
+def sig_of(cand):
+    sh, pl, ts, en = cand
+    p = ";".join("%s(%s)@%s" % (a, "+".join(args), pos_class(sh, i)) for i, a, args in pl) or "-"
+    return "%s|%s|%s|%s" % (sh, p, "+".join(ts), en)
+
+
